@@ -15,7 +15,7 @@ ID = "C18"
 LEVEL = "exploration"
 BUILDS = {"quick": ["rel"], "thorough": ["rel", "tsan", "asan"]}
 OPTIONAL_BUILDS = ["tsan", "asan"]
-BUDGET_S = {"quick": 150, "thorough": 2400}
+BUDGET_S = {"quick": 600, "thorough": 2400}
 RULE = ("1-40 scripted blocks over 1-5 files (Python, Go, TOML hosts with bracket/quote-free text; Markdown HTML-comment host with everything) with contents over Unicode, quotes, blank and "
         "whitespace-only edges, extra attributes of every syntax, optional check-lua-pattern (value group, plain, "
         "multi-line, non-matching) and per-block busy loops (0-2M iterations) so that completion order varies; 0-3 "
